@@ -164,7 +164,7 @@ pub fn run(ctx: &Ctx) -> i32 {
     let mut sweep_distinct = 0u64;
     // 1. enumerated sweep over the closest-approach table
     let t = hard_table();
-    let third = match ctx.tier {
+    let third = match ctx.sweep_tier() {
         Tier::Quick => Some(ctx.seed % 3),
         Tier::Thorough => None,
     };
@@ -194,7 +194,7 @@ pub fn run(ctx: &Ctx) -> i32 {
     // exactly or almost exactly representable: the class where a stage may skip error accounting);
     // a seed-chosen residue class of w in quick, all of them in thorough
     {
-        let stride: u64 = match ctx.tier {
+        let stride: u64 = match ctx.sweep_tier() {
             Tier::Quick => 8,
             Tier::Thorough => 1,
         };
